@@ -1,7 +1,9 @@
-// C11 harness: histories of full / incremental heartbeats, collector sweeps and
-// disconnects on a real topology.Topology.  After every step the layout's
-// writables / read-only / oversized sets, Topology.Lookup of every vid and the
-// registered state (volumes of every linked DataNode) are recorded.
+// C11 harness: histories of heartbeat STREAMS (connect, full / incremental
+// heartbeats, end of stream) and collector sweeps on a real topology.Topology
+// with several volume layouts (collection / replication).  After every step it
+// records, per layout: writables, vid2location, the read-only and oversized
+// DataNode lists, PickForWrite without option and with DataCenter+Rack option;
+// Topology.Lookup of every vid; every DataNode object the streams ever got.
 package main
 
 import (
@@ -24,199 +26,277 @@ type vinfo struct {
 	id   uint32
 	size uint64
 	ro   bool
+	key  int
+}
+
+type short struct {
+	id  uint32
+	key int
 }
 
 type event struct {
-	kind       string // full | incr | collect | disc
-	node       int
-	vols       []vinfo  // full
-	news, dels []uint32 // incr
+	kind       string // conn | full | incr | collect | close
+	st         int    // stream id = address + 10*slot
+	node, rack int    // conn
+	vols       []vinfo
+	news, dels []short
+}
+
+type lkey struct {
+	coll, rp string
 }
 
 type config struct {
-	rp    string // "000" | "001" | "010"
+	keys  []lkey
 	asMin bool
 	nodes int
 	nv    int
 }
 
 func coqInfo(v vinfo) string {
-	return fmt.Sprintf("{| vi_id := %d; vi_size := %d; vi_ro := %s |}", v.id, v.size, hx.Bool(v.ro))
+	return fmt.Sprintf("{| mi_vi := {| vi_id := %d; vi_size := %d; vi_ro := %s |}; mi_key := %d |}", v.id, v.size, hx.Bool(v.ro), v.key)
 }
 
-func u32s(xs []uint32) string {
+func shorts(xs []short) string {
 	ss := make([]string, len(xs))
 	for i, x := range xs {
-		ss[i] = fmt.Sprint(x)
+		ss[i] = fmt.Sprintf("(%d, %d)", x.id, x.key)
 	}
 	return "[" + strings.Join(ss, "; ") + "]%N"
 }
 
 func (e event) coq() string {
 	switch e.kind {
+	case "conn":
+		return fmt.Sprintf("MConnect %d %d %d", e.st, e.node, e.rack)
 	case "full":
 		xs := make([]string, len(e.vols))
 		for i, v := range e.vols {
 			xs[i] = coqInfo(v)
 		}
-		return fmt.Sprintf("EFull %d %s", e.node, hx.List(xs))
+		return fmt.Sprintf("MFull %d %s", e.st, hx.List(xs))
 	case "incr":
-		return fmt.Sprintf("EIncr %d %s %s", e.node, u32s(e.news), u32s(e.dels))
+		return fmt.Sprintf("MIncr %d %s %s", e.st, shorts(e.news), shorts(e.dels))
 	case "collect":
-		return "ECollect"
+		return "MCollect"
 	default:
-		return fmt.Sprintf("EDisconnect %d", e.node)
+		return fmt.Sprintf("MClose %d", e.st)
 	}
 }
 
 func (e event) canon() string {
 	switch e.kind {
+	case "conn":
+		return fmt.Sprintf("O%d@%d/%d", e.st, e.node, e.rack)
 	case "full":
 		xs := make([]string, len(e.vols))
 		for i, v := range e.vols {
-			xs[i] = fmt.Sprintf("%d/%d/%v", v.id, v.size, v.ro)
+			xs[i] = fmt.Sprintf("%d/%d/%v/%d", v.id, v.size, v.ro, v.key)
 		}
-		return fmt.Sprintf("F%d(%s)", e.node, strings.Join(xs, ","))
+		return fmt.Sprintf("F%d(%s)", e.st, strings.Join(xs, ","))
 	case "incr":
-		return fmt.Sprintf("I%d(+%v-%v)", e.node, e.news, e.dels)
+		return fmt.Sprintf("I%d(+%v-%v)", e.st, e.news, e.dels)
 	case "collect":
 		return "C"
 	default:
-		return fmt.Sprintf("D%d", e.node)
+		return fmt.Sprintf("X%d", e.st)
 	}
 }
 
 // ---------- the real side ----------
 
 type world struct {
-	cfg   config
-	topo  *topology.Topology
-	rp    *super_block.ReplicaPlacement
-	rpb   uint32
-	nodes map[int]*topology.DataNode // linked DataNode per node number
+	cfg     config
+	topo    *topology.Topology
+	rps     []*super_block.ReplicaPlacement
+	streams map[int]*topology.DataNode
+	objs    []*topology.DataNode // every object a stream ever got, in creation order
 }
 
 func newWorld(cfg config) *world {
-	rp, err := super_block.NewReplicaPlacementFromString(cfg.rp)
-	hx.Must(err)
-	return &world{cfg: cfg, topo: topology.VerifC11NewTopology(limit, 5, cfg.asMin), rp: rp,
-		rpb: uint32(rp.Byte()), nodes: map[int]*topology.DataNode{}}
+	w := &world{cfg: cfg, topo: topology.VerifC11NewTopology(limit, 5, cfg.asMin), streams: map[int]*topology.DataNode{}}
+	for _, k := range cfg.keys {
+		rp, err := super_block.NewReplicaPlacementFromString(k.rp)
+		hx.Must(err)
+		w.rps = append(w.rps, rp)
+	}
+	return w
 }
 
 func port(n int) int { return 8080 + n }
 
-// the DataNode a heartbeat stream of node n works on (GetOrCreateDataNode as in
-// MasterServer.SendHeartbeat)
-func (w *world) dn(n int) *topology.DataNode {
-	if d := w.nodes[n]; d != nil {
-		return d
-	}
-	dc := w.topo.GetOrCreateDataCenter("dc1")
-	rack := dc.GetOrCreateRack(fmt.Sprintf("rack%d", n%2))
-	d := rack.GetOrCreateDataNode("127.0.0.1", port(n), "127.0.0.1", map[string]uint32{"": 50})
-	w.nodes[n] = d
-	return d
-}
-
 func (w *world) apply(e event) {
 	switch e.kind {
+	case "conn":
+		// as MasterServer.SendHeartbeat does on the first message of a stream
+		dc := w.topo.GetOrCreateDataCenter("dc1")
+		rack := dc.GetOrCreateRack(fmt.Sprintf("rack%d", e.rack))
+		d := rack.GetOrCreateDataNode("127.0.0.1", port(e.node), "127.0.0.1", map[string]uint32{"": 50})
+		w.streams[e.st] = d
+		known := false
+		for _, o := range w.objs {
+			known = known || o == d
+		}
+		if !known {
+			w.objs = append(w.objs, d)
+		}
 	case "full":
+		d := w.streams[e.st]
+		if d == nil {
+			return
+		}
 		var msgs []*master_pb.VolumeInformationMessage
 		for _, v := range e.vols {
 			msgs = append(msgs, &master_pb.VolumeInformationMessage{Id: v.id, Size: v.size, ReadOnly: v.ro,
-				ReplicaPlacement: w.rpb, Version: uint32(needle.CurrentVersion), FileCount: 3})
+				Collection: w.cfg.keys[v.key].coll, ReplicaPlacement: uint32(w.rps[v.key].Byte()),
+				Version: uint32(needle.CurrentVersion), FileCount: 3})
 		}
-		w.topo.SyncDataNodeRegistration(msgs, w.dn(e.node))
+		w.topo.SyncDataNodeRegistration(msgs, d)
 	case "incr":
-		short := func(ids []uint32) (out []*master_pb.VolumeShortInformationMessage) {
-			for _, id := range ids {
-				out = append(out, &master_pb.VolumeShortInformationMessage{Id: id, ReplicaPlacement: w.rpb,
-					Version: uint32(needle.CurrentVersion)})
+		d := w.streams[e.st]
+		if d == nil {
+			return
+		}
+		sh := func(xs []short) (out []*master_pb.VolumeShortInformationMessage) {
+			for _, x := range xs {
+				out = append(out, &master_pb.VolumeShortInformationMessage{Id: x.id, Collection: w.cfg.keys[x.key].coll,
+					ReplicaPlacement: uint32(w.rps[x.key].Byte()), Version: uint32(needle.CurrentVersion)})
 			}
 			return
 		}
-		w.topo.IncrementalSyncDataNodeRegistration(short(e.news), short(e.dels), w.dn(e.node))
+		w.topo.IncrementalSyncDataNodeRegistration(sh(e.news), sh(e.dels), d)
 	case "collect":
 		topology.VerifC11CollectFull(w.topo, 0.9)
-	case "disc":
-		if d := w.nodes[e.node]; d != nil {
+	case "close":
+		if d := w.streams[e.st]; d != nil {
 			w.topo.UnRegisterDataNode(d)
-			delete(w.nodes, e.node)
+			delete(w.streams, e.st)
 		}
 	}
 }
 
-func nodeOf(d *topology.DataNode) int { return d.Port - 8080 }
+func addrOf(d *topology.DataNode) int { return d.Port - 8080 }
 
-func sortedU32(xs []uint32) []string {
+func sortedU32(xs []uint32) string {
 	ys := append([]uint32{}, xs...)
 	sort.Slice(ys, func(i, j int) bool { return ys[i] < ys[j] })
 	ss := make([]string, len(ys))
 	for i, y := range ys {
 		ss[i] = fmt.Sprint(y)
 	}
-	return ss
+	return "[" + strings.Join(ss, "; ") + "]%N"
 }
 
-// observe returns the Coq obs term and whether writables is non-empty
-func (w *world) observe() (string, bool) {
-	vl := w.topo.GetVolumeLayout("", w.rp, needle.EMPTY_TTL, types.HardDriveType)
-	writ := topology.VerifC11Writables(vl)
-	ro := topology.VerifC11ReadonlyVids(vl)
-	os := topology.VerifC11OversizedVids(vl)
+func addrList(ds []*topology.DataNode) string {
+	var ns []int
+	for _, d := range ds {
+		ns = append(ns, addrOf(d))
+	}
+	sort.Ints(ns)
+	ss := make([]string, len(ns))
+	for i, n := range ns {
+		ss[i] = fmt.Sprint(n)
+	}
+	return "[" + strings.Join(ss, "; ") + "]%N"
+}
+
+func vmap(m map[uint32][]*topology.DataNode) string {
+	var vids []int
+	for v := range m {
+		vids = append(vids, int(v))
+	}
+	sort.Ints(vids)
+	ss := make([]string, len(vids))
+	for i, v := range vids {
+		ss[i] = fmt.Sprintf("(%d%%N, %s)", v, addrList(m[uint32(v)]))
+	}
+	return "[" + strings.Join(ss, "; ") + "]"
+}
+
+// pick runs the real PickForWrite; 999 = it panicked
+func pick(vl *topology.VolumeLayout, opt *topology.VolumeGrowOption) (vid uint32, locs string) {
+	locs = "[]%N"
+	defer func() {
+		if r := recover(); r != nil {
+			vid, locs = 999, "[]%N"
+		}
+	}()
+	v, _, ll, err := vl.PickForWrite(1, opt)
+	if err != nil || v == nil {
+		return 0, locs
+	}
+	if ll != nil {
+		locs = addrList(topology.VerifC11Vid2Location(vl)[uint32(*v)])
+	}
+	return uint32(*v), locs
+}
+
+func (w *world) keyIndex(coll string, rp *super_block.ReplicaPlacement) int {
+	for i, k := range w.cfg.keys {
+		if k.coll == coll && rp != nil && w.rps[i].String() == rp.String() {
+			return i
+		}
+	}
+	return 99
+}
+
+// observe returns the Coq obs term and whether some writables is non-empty
+func (w *world) observe(out *hx.Out) (string, bool) {
+	nt := false
+	var lays []string
+	for i, k := range w.cfg.keys {
+		vl := w.topo.GetVolumeLayout(k.coll, w.rps[i], needle.EMPTY_TTL, types.HardDriveType)
+		writ := topology.VerifC11Writables(vl)
+		nt = nt || len(writ) > 0
+		pv, pl := pick(vl, &topology.VolumeGrowOption{})
+		pdc, _ := pick(vl, &topology.VolumeGrowOption{DataCenter: "dc1", Rack: "rack0"})
+		if pdc == 999 {
+			out.Count("obs:pick-panic", 1)
+		} else if pdc != 0 {
+			out.Count("obs:pick-rack-hit", 1)
+		}
+		lays = append(lays, fmt.Sprintf("{| lo_writ := %s; lo_loc := %s; lo_ro := %s; lo_os := %s; lo_pick := (%d%%N, %s); lo_pickdc := %d |}",
+			sortedU32(writ), vmap(topology.VerifC11Vid2Location(vl)), vmap(topology.VerifC11ReadonlyCopies(vl)),
+			vmap(topology.VerifC11OversizedCopies(vl)), pv, pl, pdc))
+	}
 	var look []string
 	for v := 1; v <= w.cfg.nv; v++ {
-		var ns []int
-		for _, d := range w.topo.Lookup("", needle.VolumeId(v)) {
-			ns = append(ns, nodeOf(d))
-		}
-		sort.Ints(ns)
-		ss := make([]string, len(ns))
-		for i, n := range ns {
-			ss[i] = fmt.Sprint(n)
-		}
-		look = append(look, fmt.Sprintf("(%d, [%s])", v, strings.Join(ss, "; ")))
+		look = append(look, fmt.Sprintf("(%d%%N, %s)", v, addrList(w.topo.Lookup("", needle.VolumeId(v)))))
 	}
 	var reg []string
-	var ids []int
-	for n := range w.nodes {
-		ids = append(ids, n)
-	}
-	sort.Ints(ids)
-	for _, n := range ids {
-		vols := w.nodes[n].GetVolumes()
-		if len(vols) == 0 {
-			continue
-		}
+	for _, d := range w.objs {
+		vols := d.GetVolumes()
 		sort.Slice(vols, func(i, j int) bool { return vols[i].Id < vols[j].Id })
 		vs := make([]string, len(vols))
 		for i, v := range vols {
-			vs[i] = fmt.Sprintf("(%d, (%d, %s))", uint32(v.Id), v.Size, hx.Bool(v.ReadOnly))
+			vs[i] = fmt.Sprintf("(%d, (%d, %s, %d))", uint32(v.Id), v.Size, hx.Bool(v.ReadOnly), w.keyIndex(v.Collection, v.ReplicaPlacement))
 		}
-		reg = append(reg, fmt.Sprintf("(%d, [%s])", n, strings.Join(vs, "; ")))
+		reg = append(reg, fmt.Sprintf("(%s, [%s]%%N)", hx.Bool(d.Parent() != nil), strings.Join(vs, "; ")))
 	}
-	term := fmt.Sprintf("{| ob_writ := [%s]%%N; ob_ro := [%s]%%N; ob_os := [%s]%%N; ob_look := [%s]%%N; ob_reg := [%s]%%N |}",
-		strings.Join(sortedU32(writ), "; "), strings.Join(sortedU32(ro), "; "), strings.Join(sortedU32(os), "; "),
-		strings.Join(look, "; "), strings.Join(reg, "; "))
-	return term, len(writ) > 0
+	return fmt.Sprintf("{| ob_lays := %s; ob_look := %s; ob_reg := %s |}", hx.List(lays), hx.List(look), hx.List(reg)), nt
 }
 
 // ---------- generation ----------
 
 var sizes = []uint64{0, 10, 50, 99, 100, 101, 150}
+var rps = []string{"000", "001", "010", "002", "011", "200"}
 
 func copies(rp string) int {
-	if rp == "000" {
-		return 1
+	n := 1
+	for _, c := range rp {
+		n += int(c - '0')
 	}
-	return 2
+	return n
 }
 
 type gen struct {
-	r    *hx.Rng
-	cfg  config
-	srv  map[int]map[uint32]*vinfo // what each volume server currently stores
-	last map[int][]vinfo           // last full heartbeat sent by a node
+	r     *hx.Rng
+	cfg   config
+	plain bool
+	home  map[uint32]int            // the layout key a vid normally has
+	srv   map[int]map[uint32]*vinfo // what each volume server currently stores
+	last  map[int][]vinfo           // last full heartbeat sent by a server
+	open  map[int][]int             // open slots of an address, oldest first
 }
 
 func (g *gen) snapshot(n int) []vinfo {
@@ -233,6 +313,14 @@ func (g *gen) snapshot(n int) []vinfo {
 	return out
 }
 
+func (g *gen) keyFor(vid uint32, out *hx.Out) int {
+	if !g.plain && len(g.cfg.keys) > 1 && g.r.Chance(1, 8) {
+		out.Count("srv:replica-under-other-key", 1)
+		return g.r.Intn(len(g.cfg.keys))
+	}
+	return g.home[vid]
+}
+
 func (g *gen) mutate(n int, out *hx.Out) {
 	m := g.srv[n]
 	k := g.r.Range(0, 2)
@@ -245,7 +333,7 @@ func (g *gen) mutate(n int, out *hx.Out) {
 			if g.r.Chance(1, 6) {
 				sz = g.r.PickU64(sizes)
 			}
-			m[vid] = &vinfo{id: vid, size: sz, ro: g.r.Chance(1, 6)}
+			m[vid] = &vinfo{id: vid, size: sz, ro: g.r.Chance(1, 6), key: g.keyFor(vid, out)}
 			out.Count("srv:add", 1)
 		case v == nil:
 		case c < 2:
@@ -259,6 +347,10 @@ func (g *gen) mutate(n int, out *hx.Out) {
 			} else {
 				out.Count("srv:resize", 1)
 			}
+		case c < 7 && !g.plain && len(g.cfg.keys) > 1:
+			// the volume's replication / collection is changed on the server
+			v.key = (v.key + 1 + g.r.Intn(len(g.cfg.keys)-1)) % len(g.cfg.keys)
+			out.Count("srv:rekey", 1)
 		default:
 			v.ro = !v.ro
 			out.Count("srv:ro-flip", 1)
@@ -268,45 +360,88 @@ func (g *gen) mutate(n int, out *hx.Out) {
 
 func (g *gen) next(out *hx.Out) event {
 	n := g.r.Range(1, g.cfg.nodes)
-	switch c := g.r.Intn(100); {
+	slots := g.open[n]
+	if len(slots) == 0 {
+		rack := n % 2
+		if !g.plain && g.r.Chance(1, 10) {
+			rack = 1 - rack
+			out.Count("ev:connect-other-rack", 1)
+		}
+		g.open[n] = []int{0}
+		out.Count("ev:connect", 1)
+		return event{kind: "conn", st: n, node: n, rack: rack}
+	}
+	// heartbeats normally travel on the newest stream
+	st := n + 10*slots[len(slots)-1]
+	if len(slots) > 1 && g.r.Chance(1, 5) {
+		st = n + 10*slots[0]
+		out.Count("ev:heartbeat-on-old-stream", 1)
+	}
+	c := g.r.Intn(100)
+	if !g.plain && len(slots) == 1 && c < 6 {
+		// the server reconnects before the master saw the old stream end
+		slot := 1 - slots[0]
+		rack := n % 2
+		if g.r.Chance(1, 3) {
+			rack = 1 - rack
+		}
+		g.open[n] = append(slots, slot)
+		out.Count("ev:connect-overlapping", 1)
+		return event{kind: "conn", st: n + 10*slot, node: n, rack: rack}
+	}
+	if len(slots) > 1 && c < 30 {
+		// the old stream ends
+		g.open[n] = slots[1:]
+		out.Count("ev:close-superseded", 1)
+		return event{kind: "close", st: n + 10*slots[0]}
+	}
+	switch {
 	case c < 50:
 		if g.last[n] != nil && g.r.Chance(1, 8) {
 			out.Count("ev:full-duplicate", 1)
-			return event{kind: "full", node: n, vols: g.last[n]}
+			return event{kind: "full", st: st, vols: g.last[n]}
 		}
 		g.mutate(n, out)
 		s := g.snapshot(n)
 		g.last[n] = s
 		out.Count("ev:full", 1)
-		return event{kind: "full", node: n, vols: s}
+		return event{kind: "full", st: st, vols: s}
 	case c < 75:
 		// incremental message: about the server's real change, or stale / duplicate / unrelated
 		vid := uint32(g.r.Range(1, g.cfg.nv))
-		e := event{kind: "incr", node: n}
+		e := event{kind: "incr", st: st}
+		key := g.home[vid]
+		if v := g.srv[n][vid]; v != nil {
+			key = v.key
+		}
+		if !g.plain && len(g.cfg.keys) > 1 && g.r.Chance(1, 10) {
+			key = g.r.Intn(len(g.cfg.keys))
+			out.Count("ev:incr-other-key", 1)
+		}
 		if g.r.Chance(3, 5) {
 			if g.srv[n][vid] == nil {
-				g.srv[n][vid] = &vinfo{id: vid, size: 0, ro: false}
-				e.news = []uint32{vid}
+				g.srv[n][vid] = &vinfo{id: vid, size: 0, ro: false, key: key}
+				e.news = []short{{vid, key}}
 				out.Count("ev:incr-new", 1)
 			} else {
 				delete(g.srv[n], vid)
-				e.dels = []uint32{vid}
+				e.dels = []short{{vid, key}}
 				out.Count("ev:incr-deleted", 1)
 			}
 		} else if g.r.Bool() {
-			e.news = []uint32{vid}
+			e.news = []short{{vid, key}}
 			out.Count("ev:incr-new-stale", 1)
 		} else {
-			e.dels = []uint32{vid}
+			e.dels = []short{{vid, key}}
 			out.Count("ev:incr-deleted-stale", 1)
 		}
 		if g.r.Chance(1, 6) { // the master accepts lists: a second, different vid
 			v2 := uint32(g.r.Range(1, g.cfg.nv))
 			if v2 != vid {
 				if g.r.Bool() {
-					e.news = append(e.news, v2)
+					e.news = append(e.news, short{v2, g.home[v2]})
 				} else {
-					e.dels = append(e.dels, v2)
+					e.dels = append(e.dels, short{v2, g.home[v2]})
 				}
 				out.Count("ev:incr-two-volumes", 1)
 			}
@@ -316,9 +451,11 @@ func (g *gen) next(out *hx.Out) event {
 		out.Count("ev:collect", 1)
 		return event{kind: "collect"}
 	default:
-		out.Count("ev:disconnect", 1)
-		// the server keeps its volumes; the next heartbeat of n reconnects
-		return event{kind: "disc", node: n}
+		// the newest stream ends; the server keeps its volumes and reconnects later
+		last := slots[len(slots)-1]
+		g.open[n] = slots[:len(slots)-1]
+		out.Count("ev:close", 1)
+		return event{kind: "close", st: n + 10*last}
 	}
 }
 
@@ -328,7 +465,7 @@ func runCase(out *hx.Out, cfg config, evs []event, kind string) {
 	nontrivial := false
 	for _, e := range evs {
 		w.apply(e)
-		o, nt := w.observe()
+		o, nt := w.observe(out)
 		obs = append(obs, o)
 		ev = append(ev, e.coq())
 		canon = append(canon, e.canon())
@@ -338,10 +475,16 @@ func runCase(out *hx.Out, cfg config, evs []event, kind string) {
 	for i := range univ {
 		univ[i] = fmt.Sprint(i + 1)
 	}
-	term := fmt.Sprintf("{| k_cfg := {| c_copy := %d; c_asmin := %s; c_limit := %d |}; k_univ := [%s]%%N; k_evs := %s; k_impl := %s |}",
-		copies(cfg.rp), hx.Bool(cfg.asMin), limit, strings.Join(univ, "; "), hx.List(ev), hx.List(obs))
-	out.Add(term, fmt.Sprintf("%s/%v/%d|%s", cfg.rp, cfg.asMin, cfg.nodes, strings.Join(canon, ";")), nontrivial, kind)
-	out.Count("rp:"+cfg.rp, 1)
+	var cp, ks []string
+	for _, k := range cfg.keys {
+		cp = append(cp, fmt.Sprint(copies(k.rp)))
+		ks = append(ks, k.coll+":"+k.rp)
+		out.Count("rp:"+k.rp, 1)
+	}
+	term := fmt.Sprintf("{| k_mc := {| mc_copies := [%s]%%N; mc_asmin := %s; mc_limit := %d |}; k_univ := [%s]%%N; k_evs := %s; k_impl := %s |}",
+		strings.Join(cp, "; "), hx.Bool(cfg.asMin), limit, strings.Join(univ, "; "), hx.List(ev), hx.List(obs))
+	out.Add(term, fmt.Sprintf("%s/%v/%d|%s", strings.Join(ks, ","), cfg.asMin, cfg.nodes, strings.Join(canon, ";")), nontrivial, kind)
+	out.Count(fmt.Sprintf("layouts:%d", len(cfg.keys)), 1)
 	if cfg.asMin {
 		out.Count("asMin", 1)
 	}
@@ -350,41 +493,80 @@ func runCase(out *hx.Out, cfg config, evs []event, kind string) {
 func main() {
 	out := hx.Flags("C11", 300)
 	fla9.Set("alsologtostderr", "false") // glog: files under TMPDIR only
-	out.Rule = "cases 0-2: fixed witnesses of known finding 0; then random histories (8-26 events) over 2-3 data nodes, vids 1..nv (nv 2-4), one replication of {000,001,010} per case, volumeSizeLimit 100, sizes from {0,10,50,99,100,101,150}: full heartbeats from a simulated volume server (add/delete/resize/read-only flip, duplicates of the last one), incremental new/deleted messages (real, stale, duplicate, two volumes), collector sweeps, disconnect + reconnect; observables after every step; non-trivial = writables non-empty at some step; distinct = config + canonical event list"
+	out.Rule = "cases 0-6: fixed witnesses of known findings 0-4; then random histories (8-26 events) over 2-4 volume servers, vids 1..nv (nv 2-4), volumeSizeLimit 100, sizes from {0,10,50,99,100,101,150}. Half of the cases are PLAIN (one layout, one stream per server, fixed racks): connect, full heartbeats from a simulated volume server (add/delete/resize/read-only flip, duplicates of the last one), incremental new/deleted messages (real, stale, duplicate, two volumes), collector sweeps, end of stream + reconnect. The other half use 2-3 layouts (collection ''/'c1' x replication of {000,001,010,002,011,200}) with replicas reported under another layout, replication changes on a server, incremental messages naming another layout, reconnects under the other rack, overlapping streams of one server (same or other rack), heartbeats on the superseded stream and its late end. Observables after every step; non-trivial = some writables non-empty at some step; distinct = config + canonical event list"
 	f := false
-	// fixed witnesses of finding 0 (independent of the seed)
-	runCase(out, config{"000", false, 1, 1}, []event{
-		{kind: "full", node: 1, vols: []vinfo{{1, 10, f}}},
-		{kind: "full", node: 1, vols: []vinfo{{1, 150, f}}},
-		{kind: "collect"},
-		{kind: "full", node: 1, vols: []vinfo{{1, 150, true}}},
-		{kind: "full", node: 1, vols: []vinfo{{1, 150, f}}},
-	}, "witness-readmitted-after-collect")
-	runCase(out, config{"000", false, 1, 1}, []event{
-		{kind: "full", node: 1, vols: []vinfo{{1, 10, f}}},
-		{kind: "full", node: 1, vols: []vinfo{{1, 150, f}}},
-	}, "witness-size-report")
-	runCase(out, config{"000", true, 2, 1}, []event{
-		{kind: "full", node: 1, vols: []vinfo{{1, 10, f}}},
-		{kind: "full", node: 2, vols: []vinfo{{1, 150, f}}},
-	}, "witness-asmin-oversized-joins")
+	k000 := []lkey{{"", "000"}}
+	conn := func(st, n, rack int) event { return event{kind: "conn", st: st, node: n, rack: rack} }
+	full := func(st int, vs ...vinfo) event { return event{kind: "full", st: st, vols: vs} }
+	// fixed witnesses (independent of the seed)
+	runCase(out, config{k000, false, 1, 1}, []event{conn(1, 1, 1),
+		full(1, vinfo{1, 10, f, 0}), full(1, vinfo{1, 150, f, 0}), {kind: "collect"},
+		full(1, vinfo{1, 150, true, 0}), full(1, vinfo{1, 150, f, 0}),
+	}, "witness0-readmitted-after-collect")
+	runCase(out, config{k000, true, 2, 1}, []event{conn(1, 1, 1), conn(2, 2, 0),
+		full(1, vinfo{1, 10, f, 0}), full(2, vinfo{1, 150, f, 0}),
+	}, "witness0-asmin-oversized-joins")
+	runCase(out, config{[]lkey{{"", "000"}, {"", "001"}}, false, 1, 1}, []event{conn(1, 1, 1),
+		full(1, vinfo{1, 10, f, 0}), full(1, vinfo{1, 10, f, 1}), full(1),
+	}, "witness1-replication-changed-then-deleted")
+	runCase(out, config{k000, false, 1, 2}, []event{conn(1, 1, 1), full(1, vinfo{1, 10, f, 0}),
+		conn(11, 1, 1), {kind: "close", st: 1}, full(11, vinfo{1, 10, f, 0}, vinfo{2, 10, f, 0}),
+	}, "witness2-heartbeat-on-unlinked-object")
+	runCase(out, config{k000, false, 1, 1}, []event{conn(1, 1, 1), full(1, vinfo{1, 10, f, 0}),
+		conn(11, 1, 0), full(11, vinfo{1, 10, f, 0}), {kind: "close", st: 1}, full(11, vinfo{1, 10, f, 0}),
+	}, "witness2-late-unregister-of-superseded-object")
+	runCase(out, config{k000, false, 1, 1}, []event{conn(1, 1, 1),
+		full(1, vinfo{1, 10, true, 0}), {kind: "incr", st: 1, news: []short{{1, 0}}},
+	}, "witness3-short-message-resets-readonly")
+	runCase(out, config{[]lkey{{"c1", "011"}, {"c1", "002"}}, false, 3, 3}, []event{conn(2, 2, 0), conn(3, 3, 1),
+		full(2, vinfo{3, 10, f, 0}), full(3, vinfo{3, 10, f, 1}),
+	}, "witness4-replicas-under-two-layouts")
 
 	// Fork once: hx.NewRng(seed+1) is hx.NewRng(seed) advanced by one draw, and the
 	// shards of one run use consecutive seeds
 	root := hx.NewRng(out.Seed).Fork()
 	for out.Len() < out.N {
 		r := root.Fork()
-		cfg := config{rp: r.PickStr([]string{"000", "001", "010"}), asMin: r.Chance(3, 10), nodes: r.Range(2, 3), nv: r.Range(2, 4)}
-		g := &gen{r: r, cfg: cfg, srv: map[int]map[uint32]*vinfo{}, last: map[int][]vinfo{}}
+		plain := r.Bool()
+		cfg := config{asMin: r.Chance(3, 10), nodes: r.Range(2, 4), nv: r.Range(2, 4)}
+		nk := 1
+		if !plain {
+			nk = r.Range(2, 3)
+		}
+		for len(cfg.keys) < nk {
+			k := lkey{r.PickStr([]string{"", "", "c1"}), r.PickStr(rps)}
+			if plain {
+				k.rp = r.PickStr(rps[:4]) // three-copy layouts mostly in the multi-layout half
+			}
+			dup := false
+			for _, o := range cfg.keys {
+				dup = dup || o == k
+			}
+			if !dup {
+				cfg.keys = append(cfg.keys, k)
+			}
+		}
+		g := &gen{r: r, cfg: cfg, plain: plain, home: map[uint32]int{}, srv: map[int]map[uint32]*vinfo{},
+			last: map[int][]vinfo{}, open: map[int][]int{}}
 		for n := 1; n <= cfg.nodes; n++ {
 			g.srv[n] = map[uint32]*vinfo{}
+		}
+		for v := 1; v <= cfg.nv; v++ {
+			g.home[uint32(v)] = 0
+			if r.Chance(1, 3) {
+				g.home[uint32(v)] = r.Intn(nk)
+			}
 		}
 		k := r.Range(8, 26)
 		evs := make([]event, 0, k)
 		for i := 0; i < k; i++ {
 			evs = append(evs, g.next(out))
 		}
-		runCase(out, cfg, evs, "history")
+		kind := "history-multi"
+		if plain {
+			kind = "history-plain"
+		}
+		runCase(out, cfg, evs, kind)
 	}
 	out.Write()
 }
